@@ -17,12 +17,18 @@ def run(tier):
     blocks = gen.blocks(sd * 29 + 12, n, profiles=("mixed", "mem", "arith")) + rng.sample(gen.mem_pair_corpus(), 6 if tier == "quick" else 40) + rng.sample(gen.rule_corpus(), 6 if tier == "quick" else 40)
     cse = gen.cse_corpus()
     blocks += rng.sample(cse, 10 if tier == "quick" else len(cse))
+    blocks += rng.sample(gen.fold_corpus([1, 3, 4, 255]), 8 if tier == "quick" else 60) + ["PUSH1 0x3 PUSH1 0x4 ADD MLOAD", "PUSH1 0x1 PUSH1 0x3 SUB DUP1 SWAP2"]
     pool_h = gen.blocks(sd * 31 + 13, 200, profiles=("mixed", "mem", "arith", "stack")) + gen.mem_pair_corpus()[:60] + cse * 3
     samples = []
     for opts in ((["-greedy"], ["-greedy", "-storage", "-size"]) if tier == "quick" else (["-greedy"], ["-greedy", "-storage"], ["-greedy", "-size", "-partition"])):
         tasks = []
         for b in blocks:
             tasks.append({"kind": "history", "text": b, "opts": opts, "history": [], "fresh": True, "role": "fresh", "timeout": 60})
+            # the block itself and a near copy as history: caches keyed by expressions or names of an earlier, similar block
+            tasks.append({"kind": "history", "text": b, "opts": opts, "history": [b], "fresh": True, "role": "after-itself", "timeout": 120})
+            toks = b.split()
+            if len(toks) > 3:
+                tasks.append({"kind": "history", "text": b, "opts": opts, "history": [" ".join(toks[:-1]) + " ISZERO", b + " PUSH1 0x1 ADD"], "fresh": True, "role": "after-twins", "timeout": 120})
             for k in ((1, 8) if tier == "quick" else (1, 5, 50)):
                 tasks.append({"kind": "history", "text": b, "opts": opts, "history": rng.sample(pool_h, k), "fresh": True, "role": "after-%d" % k, "timeout": 120})
         res = pool.run_tasks(tasks, timeout=120)
